@@ -37,20 +37,24 @@ package procbuilder
 //@   ensures nonnil: forall k int :: old(len(Allopcodes)) <= k && k < len(Allopcodes) ==> Allopcodes[k] != nil
 //@   ensures present: (exists k int :: 0 <= k && k < old(len(Allopcodes)) && old(Allopcodes[k]).Op_get_name() == name) ==> len(Allopcodes) == old(len(Allopcodes))
 //@   ensures array: (arr(Allopcodes) == old(arr(Allopcodes)) && off(Allopcodes) == old(off(Allopcodes)) && cap(Allopcodes) == old(cap(Allopcodes))) || fresh(Allopcodes)
+//@   ensures exact: result1 == nil && !result ==> (exists k int :: 0 <= k && k < old(len(Allopcodes)) && old(Allopcodes[k]).Op_get_name() == name) ||
+//@             (forall d int :: 0 <= d && d < len(AllDynamicalInstructions) ==> !AllDynamicalInstructions[d].MatchName(name))
+//@   ensures created: result ==> result1 == nil && len(Allopcodes) == old(len(Allopcodes)) + 1 && Allopcodes[len(Allopcodes) - 1].Op_get_name() == name
 //@   assigns Allopcodes, spare(Allopcodes)
 //@   loop 1: modifies nothing
+//@   loop 1: invariant nomatch: forall d int :: 0 <= d && d < $i ==> !AllDynamicalInstructions[d].MatchName(name)
 //@   loop 2: modifies nothing
 //@   loop 2: invariant absent: forall k int :: 0 <= k && k < $i ==> Allopcodes[k].Op_get_name() != name
 
 // The creators of dynamic instructions (regular expressions over the name, for FloPoCo an external generator run) are
 // not verified: matching is assumed to be a function of the name, and a creator that reports no error is assumed to
-// return an instruction and to leave the opcode registry and every machine alone.
+// return an instruction of the requested name and to leave the opcode registry and every machine alone.
 //@ interface DynamicInstruction method MatchName(name string) bool
 //@   pure
 //@   trusted
 
 //@ interface DynamicInstruction method CreateInstruction(name string) (Opcode, error)
-//@   ensures made: result1 == nil ==> result != nil
+//@   ensures made: result1 == nil ==> result != nil && result.Op_get_name() == name
 //@   assigns nothing
 //@   trusted
 
